@@ -261,6 +261,7 @@ def decode_stream(
     max_msg_size: int = 0,
     decode_text: bool = True,
     boundary_accept=True,  # bool, or callable(message index) -> bool (P-size-boundary decided per message)
+    takeover: bool = True,  # False: the sender promised no context takeover, the receiver inflates every message afresh
 ) -> RefResult:
     """Decode `data` as a sequence of WebSocket frames received by an endpoint that negotiated permessage-deflate iff
     `deflate`.  A violation is *due* once the offending frame is completely present; an incomplete offending frame is
@@ -425,6 +426,8 @@ def decode_stream(
         body = b"".join(open_parts)
         mv: list = []
         if open_compressed:
+            if not takeover:
+                inflater = Inflater()
             out, st = inflater.message(body, max_msg_size)
             if st == "error":
                 r.end, r.classes, r.offset = "violation", [("inflate-error", None)], fstart
@@ -463,9 +466,9 @@ def decode_stream(
 # strict reading of a *sender's* output (C11): everything the decoder tolerates as grey is a defect for a sender
 
 
-def check_sender_stream(data: bytes, *, deflate: bool, expect_mask: bool) -> tuple[RefResult, list]:
+def check_sender_stream(data: bytes, *, deflate: bool, expect_mask: bool, takeover: bool = True) -> tuple[RefResult, list]:
     """Decode what a writer produced; returns (result, list of sender-side defects)."""
-    r = decode_stream(data, deflate=deflate, max_msg_size=0, decode_text=False)
+    r = decode_stream(data, deflate=deflate, max_msg_size=0, decode_text=False, takeover=takeover)
     defects = []
     if r.end == "violation":
         defects.append("violation:" + r.classes[0][0])
